@@ -23,9 +23,13 @@ type cfg struct {
 	Start            int64 // unix nanoseconds
 	Advances         int
 	Slow             bool
+	Busy             bool // the flush itself consumes clock time (a fraction of / several intervals)
 }
 
 func (c cfg) String() string {
+	if c.Busy {
+		return fmt.Sprintf("i%v-o%v-s%d-a%d-busy", c.Interval, c.Offset, c.Start, c.Advances)
+	}
 	return fmt.Sprintf("i%v-o%v-s%d-a%d-slow%v", c.Interval, c.Offset, c.Start, c.Advances, c.Slow)
 }
 
@@ -37,6 +41,7 @@ type flushRec struct {
 // recording AggregateProcesser with one aggregator
 type proc struct {
 	r    *run
+	busy []time.Duration
 	gate chan struct{}
 }
 
@@ -54,6 +59,9 @@ func (p *proc) Process(ctx context.Context, f statsd.DispatcherProcessFunc) gost
 		vsched.Recv(p.gate) // slow consumer: waits until the harness lets it through
 	}
 	f(0, aggr{p.r})
+	if p.busy != nil && len(p.r.flushes) <= 2 { // only the first two flushes are slow, or time would never stand still
+		vtime.Advance(p.r.mock, p.busy[vsched.Choose(len(p.busy), "flush-takes")])
+	}
 	return func() {}
 }
 
@@ -104,6 +112,9 @@ func body(c cfg, r *run) func(*vsched.Exec) {
 		p := &proc{r: r}
 		if c.Slow {
 			p.gate = make(chan struct{}, 8)
+		}
+		if c.Busy {
+			p.busy = []time.Duration{c.Interval / 4, 5 * c.Interval / 2}
 		}
 		fl := statsd.NewMetricFlusher(c.Interval, c.Offset, true, p, nil)
 		vsched.GoNamed("flusher", func() { fl.Run(ctx) })
@@ -207,7 +218,10 @@ func configs() []cfg {
 					if slow && !(off == 0 && st%2 == 0) {
 						continue
 					}
-					cs = append(cs, cfg{iv, off, st, adv, slow})
+					cs = append(cs, cfg{iv, off, st, adv, slow, false})
+				}
+				if (st == starts[0] || (vrt.Thorough() && st%2 == 0)) && (off == 0 || off == iv-1) {
+					cs = append(cs, cfg{iv, off, st, adv - 1, false, true})
 				}
 			}
 		}
